@@ -90,9 +90,12 @@ def fork_refinement(ctx):
     for (p, s), (rc, raw) in zip(cases, rs):
         o = CR.oracle(p, s, None, raw)
         if 'ABORT' in raw or 'BUG ' in raw or 'TIMEOUT' in raw: o = 'abnormal run: ' + raw[-300:]
-        for mreg in re.finditer(r'note forkreg owner (-?\d+) foreign (\d+)', raw):      # state of the reader registry that fork() would copy
-            if not o and (mreg.group(1) != '-1' or mreg.group(2) != '0'):
-                o = 'at the fork point the reader registry is not quiescent: rcu_registry_lock owner = thread %s (-1 = free), %s helper thread(s) still registered - the child inherits a held lock / a reader that does not exist' % (mreg.group(1), mreg.group(2))
+        for mreg in re.finditer(r'note forkreg owner (-?\d+) foreign (\d+) napp (\d+)', raw):      # state of the reader registry that fork() would copy
+            owner, foreign, napp = int(mreg.group(1)), int(mreg.group(2)), int(mreg.group(3))
+            # only the library's helper threads are the handlers' business: another APPLICATION thread registering / unregistering at the fork is outside the
+            # documented precondition (no application thread besides the forking one is a registered reader at that moment)
+            if not o and (owner >= napp or foreign != 0):
+                o = 'at the fork point the reader registry is not quiescent: rcu_registry_lock is held by helper thread %d / %d helper thread(s) still registered - the child inherits a held lock or a reader that does not exist' % (owner, foreign)
         if o:
             nor += 1
             if nor <= 2: ctx.fail('oracle', 'call_rcu oracle on the fork-handshake scenario', o, concrete={'scenario': 'scen_callrcu', 'prog': p, 'schedule': s + tail, 'verdict': o})
